@@ -1,5 +1,5 @@
 CONSTANT MaxLen = 4
 SPECIFICATION Spec
 INVARIANTS TypeOK CanResets GroundQuiet
-PROPERTIES AppendOnly CsiCarriesOnlyItsOwn
+PROPERTIES AppendOnly CsiCarriesOnlyItsOwn StSuppressedOnlyAtStringEnd
 CHECK_DEADLOCK FALSE
